@@ -392,6 +392,29 @@ def main(argv):
     os.makedirs(os.path.join(out_root, "replay/out"), exist_ok=True)
     for u, r in zip(units, results):
         if r["status"] == "undecided":
+            # the contract could not be re-established on this tree (construct outside a rule list, proof text that no
+            # longer applies, helper lemma failing).  That alone is never an alarm.  But a unit with a witness search
+            # still has its oracle on the REAL code: a replayed failing input is a violation of the property whatever
+            # the state of the proof; the replay file then names the unit's first contract obligation and says that it
+            # was undecided
+            if (u.get("witness") or u.get("witness_by_property")) and u["engine"] in ("R", "S", "V") and not a.no_witness and r.get("obligations") is not None:
+                wit = run_witness(u, a.repo, bdir)
+                if wit.get("found"):
+                    names = (u.get("contract_by_property") or {}).get(prop) or u.get("contract") or ["(unit)"]
+                    ob = {"name": f"{u['id']}::{names[0]}", "contract": True, "status": "refuted",
+                          "note": "obligation undecided on this tree (" + r.get("reason", "")[:300] + "); the witness search replayed a failing input on the real code"}
+                    k = match_known(known, prop, r, ob)
+                    if k:
+                        known_hits.append((k, ob))
+                        continue
+                    rp = os.path.join(out_root, "replay/out", f"{prop}-{r['unit']}-{names[0]}.json")
+                    json.dump({"property": prop, "unit": r["unit"], "obligation": ob["name"], "engine": r["engine"],
+                               "sites": [], "verifier_output": [r.get("reason", "")], "counterexample": None,
+                               "witness": wit, "repo": a.repo, "template": u.get("template"), "note": ob["note"],
+                               "replay_cmd": f"./check {prop} --replay {rp}"}, open(rp, "w"), indent=1)
+                    r.setdefault("obligations", []).append(ob)
+                    violations.append((rp, ob, wit))
+                    continue
             undecided.append((u, r))
             continue
         if r["status"] != "refuted":
